@@ -52,7 +52,10 @@ Inductive err :=
 | NoTable           (* "index table not found in input" *)
 | ChunkTooLarge     (* "chunk size %d is larger than maximum %d" *)
 | DecreasingOffset  (* "chunk offset %d is smaller than the preceding offset %d" *)
-| TooShort          (* protocol: "message length too short" *)
+| TooShort          (* protocol: "message length too short", "protocol request too small", "received chunk too small" *)
+| BadHello          (* protocol: not a HELLO / HELLO body not 8 bytes / wanted service not offered *)
+| Aborted           (* protocol: "client aborted connection" *)
+| StoreFailed       (* protocol server: the chunk store returned an error other than ChunkMissing *)
 | OutOfFuel.        (* model artefact; shown unreachable *)
 
 Inductive panic :=
